@@ -19,7 +19,7 @@ PROPS['C07'] = A(level='model_checking',
     harnesses=[A(src='harness/c07_interval.cpp', san='asan')],
     budget=A(quick=150, thorough=1500),
     bounds=A(quick='configs (endpoint universe {0..U}, copies c of every interval, <=M stored, f=1 removed node object re-created / f=0 re-used stale): U2c2M5f1 U3c1M6f1 U4c1M4f1 U1c3M6f1 U2c1M5f0 U1c2M4f0; insert/remove histories of any length (fixpoint); every query -1<=lb<=ub<=U+1 and every 1-arg query in every distinct state',
-             thorough='U2c2M6f1 U3c1M7f1 U3c2M5f1 U4c1M6f1 U5c1M4f1 U1c3M7f1 U2c1M6f0 U1c3M5f0 U1c2M4f0 U3c1M4f0; fixpoint; all queries in every distinct state'),
+             thorough='U2c2M6f1 U3c1M7f1 U3c2M5f1 U4c1M6f1 U5c1M4f1 U1c3M7f1 U2c1M6f0 U1c3M5f0 U1c2M4f0 U3c1M3f0; fixpoint; all queries in every distinct state'),
     assumptions=TRUST)
 PROPS['C08'] = A(level='model_checking',
     harnesses=[A(src='harness/c08_pairing.cpp', san='asan')],
